@@ -134,6 +134,15 @@ pub fn cfg_for(k: u32, t: u16, n: u16, al: u8) -> Oti {
 
 // (T, N, Al) with Al | T and 1 <= N <= T/Al
 pub fn pick_tnal(rng: &mut Rng, tmax: u16) -> (u16, u16, u8) {
+    if rng.chance(1, 3) {
+        // aligned sub-blocks that do not divide evenly: Al in {2,4,8}, T/Al >= 3, N not dividing T/Al
+        let al = *rng.pick(&[2u8, 4, 8, 3]);
+        let units = rng.range(3, (tmax as u64 / al as u64).max(3)) as u16;
+        let cands: Vec<u16> = (2..units).filter(|n| units % n != 0).collect();
+        if !cands.is_empty() {
+            return (units * al as u16, *rng.pick(&cands), al);
+        }
+    }
     let t = match rng.below(4) { 0 => 1, 1 => rng.range(1, 8) as u16, _ => rng.range(1, tmax as u64) as u16 };
     let divs: Vec<u8> = (1..=255u16).filter(|d| t % d == 0).map(|d| d as u8).collect();
     let al = if rng.chance(1, 2) { 1 } else { *rng.pick(&divs) };
@@ -196,6 +205,23 @@ pub fn repair(rec: &mut Recorder, rng: &mut Rng, thorough: bool) {
             ((top - 3) as u32, 4),
             (top as u32, 0),
         ];
+        // windows that straddle a point where y = (B + X*A) mod 2^32 wraps around
+        let mut windows = windows;
+        {
+            let j = rq::systematic_index(k) as u64;
+            let kp = rq::extended_source_block_symbols(k) as u64;
+            let mut a = 53591 + j * 997;
+            if a % 2 == 0 { a += 1; }
+            let b = 10267 * (j + 1);
+            for _ in 0..3 {
+                let m = rng.range(1, ((1u64 << 24) * a) >> 32);
+                let x = ((m << 32) - b + a - 1) / a; // first X with B + X*A >= m * 2^32
+                if x > kp + 4 && x + 4 < (1 << 24) + kp - k as u64 + k as u64 {
+                    let start = x - kp - rng.range(1, 4);
+                    if start + 8 < top { windows.push((start as u32, 8)); }
+                }
+            }
+        }
         for (s, cnt) in windows {
             let e2 = enc.clone();
             let r = guarded(move || e2.repair_packets(s, cnt));
